@@ -122,7 +122,13 @@ def report_issue(ctx, issue, shrink=True):
       pass
   elif rep.get('history') is not None and rep.get('bundle') is not None and shrink:
     try:
-      h, b = K.shrink_issue(rep['history'], rep['bundle'], issue['prop'], kind)
+      by_code = kind.endswith(':recalculation-after-undo')
+      h, b = K.shrink_issue(rep['history'], rep['bundle'], issue['prop'], 'undo-does-not-restore' if by_code else kind)
+      if by_code:
+        probe = {'kind': 'undo-does-not-restore'}
+        K.refine_with_code(probe, K.code_of_bundle(ctx, h, b))
+        if probe['kind'] != kind:
+          h, b = rep['history'], rep['bundle']
       rep = {'history': h, 'bundle': b, 'kind': kind}
     except Exception:
       pass
@@ -158,6 +164,10 @@ def search(ctx):
       issues2, _ = K.check_bundle(K.build(w['history']), copy.deepcopy(w['bundle']))
       for p, k, what in issues2:
         if p == PROP:
+          if k == 'undo-does-not-restore':
+            probe = {'kind': k}
+            K.refine_with_code(probe, K.code_of_bundle(ctx, w['history'], w['bundle']))
+            k = probe['kind']
           refined = (k, what)
           break
     except Exception:
@@ -168,12 +178,16 @@ def search(ctx):
 
 
 def replay(ctx, w):
-  return _k1().replay_witness(w, PROP)
+  return _k1().replay_witness(w, PROP, ctx)
 
 
 def _removed_table_new_row(violation, entry):
   return violation.get('kind') == 'undo-raises:removed-table-new-row'
 
 
-MATCHERS = {'removed_table_new_row': _removed_table_new_row}
+def _recalculation(violation, entry):
+  return violation.get('kind') in ('undo-does-not-restore:recalculation-after-undo', 'history-undo-differs:formula-cells-only')
+
+
+MATCHERS = {'removed_table_new_row': _removed_table_new_row, 'recalculation': _recalculation}
 DISABLED = True
